@@ -205,6 +205,9 @@ class Fn:
         if self._defs is None:
             d = defaultdict(list)
             for bi, si, st in self.stmts():
+                # a write through a dereference changes the pointee, not the local
+                if any(p['k'] == 'deref' for p in st['lhs']['proj']):
+                    continue
                 d[st['lhs']['local']].append(('stmt', bi, si, st))
             for bi, t in self.calls(live_only=False):
                 d[t['dest']['local']].append(('call', bi, None, t))
